@@ -18,7 +18,8 @@
 (***************************************************************************)
 EXTENDS Naturals, Integers, Sequences, FiniteSets, TLC, Json
 
-CONSTANTS MaxNodes, MaxRemovers, MaxDisp, MaxEnq, MaxDepth, Counts, Ops, NestOps, Defects
+CONSTANTS MaxNodes, MaxRemovers, MaxDisp, MaxEnq, MaxDepth, Counts, Ops, NestOps, Defects,
+          EvKeys      \* event keys used per dispatcher: {1,2}; {1} when the targets are plain callback lists
 
 Keys == 1..4                      \* 1,2: dispatcher 1; 3,4: dispatcher 2
 Rs == 1..MaxRemovers
@@ -59,6 +60,22 @@ OpAppendCtr(e, c) == /\ En("ac") /\ nn < MaxNodes /\ lst' = [lst EXCEPT ![e] = A
                      /\ UNCHANGED <<rem, frames, pending, ndisp, nenq, added, bad>> /\ H("ac", e, c)
 OpAppendCond(e) == /\ En("ak") /\ nn < MaxNodes /\ lst' = [lst EXCEPT ![e] = Append(@, nn + 1)] /\ kind' = Append(kind, [k |-> "cond", left |-> 0])
                    /\ UNCHANGED <<rem, frames, pending, ndisp, nenq, added, bad>> /\ H("ak", e, 0)
+
+\* the other two ways of registering through the helpers: at the front, and before an existing listener h of the same event (h = 0, or a
+\* handle that is no longer attached: appended).  Script item: pc [e, c], ic [e + 10h, c], qk [e, 0], ik [e, h]
+Before(s, h, n) == IF InSeq(s, h) THEN LET p == CHOOSE i \in 1..Len(s) : s[i] = h IN SubSeq(s, 1, p - 1) \o <<n>> \o SubSeq(s, p, Len(s)) ELSE Append(s, n)
+UsableH(e, h) == h = 0 \/ (h \in 1..nn /\ \A k \in Keys : k # e => ~InSeq(lst[k], h))
+OpPrependCtr(e, c) == /\ En("pc") /\ nn < MaxNodes /\ lst' = [lst EXCEPT ![e] = <<nn + 1>> \o @]
+                      /\ kind' = Append(kind, [k |-> "ctr", left |-> IF c < 1 THEN 1 ELSE c])
+                      /\ UNCHANGED <<rem, frames, pending, ndisp, nenq, added, bad>> /\ H("pc", e, c)
+OpInsertCtr(e, h, c) == /\ En("ic") /\ nn < MaxNodes /\ UsableH(e, h) /\ lst' = [lst EXCEPT ![e] = Before(@, h, nn + 1)]
+                        /\ kind' = Append(kind, [k |-> "ctr", left |-> IF c < 1 THEN 1 ELSE c])
+                        /\ UNCHANGED <<rem, frames, pending, ndisp, nenq, added, bad>> /\ H("ic", e + 10 * h, c)
+OpPrependCond(e) == /\ En("qk") /\ nn < MaxNodes /\ lst' = [lst EXCEPT ![e] = <<nn + 1>> \o @] /\ kind' = Append(kind, [k |-> "cond", left |-> 0])
+                    /\ UNCHANGED <<rem, frames, pending, ndisp, nenq, added, bad>> /\ H("qk", e, 0)
+OpInsertCond(e, h) == /\ En("ik") /\ nn < MaxNodes /\ UsableH(e, h) /\ lst' = [lst EXCEPT ![e] = Before(@, h, nn + 1)]
+                      /\ kind' = Append(kind, [k |-> "cond", left |-> 0])
+                      /\ UNCHANGED <<rem, frames, pending, ndisp, nenq, added, bad>> /\ H("ik", e, h)
 
 \* ---- ScopedRemover
 Alive(r) == rem[r].alive
@@ -130,11 +147,12 @@ RetCond(v) == /\ frames # <<>> /\ Top.cur # 0 /\ Top.ph = "c"
               /\ frames' = [frames EXCEPT ![Len(frames)].ph = "l"]
               /\ UNCHANGED <<kind, rem, pending, ndisp, nenq, added, bad>> /\ H("ct", v, 0)
 
-Next == \/ \E e \in 1..2 : \/ OpAppend(e) \/ OpAppendCond(e) \/ OpDispatch(e) \/ OpEnqueue(e)
+Next == \/ \E e \in EvKeys : \/ OpAppend(e) \/ OpAppendCond(e) \/ OpDispatch(e) \/ OpEnqueue(e)
                            \/ \E h \in 1..MaxNodes : OpRemove(e, h)
-                           \/ \E c \in Counts : OpAppendCtr(e, c)
+                           \/ (\E c \in Counts : OpAppendCtr(e, c) \/ OpPrependCtr(e, c) \/ (\E b \in 0..MaxNodes : OpInsertCtr(e, b, c)))
+                           \/ OpPrependCond(e) \/ (\E b2 \in 0..MaxNodes : OpInsertCond(e, b2))
         \/ \E r \in Rs : \/ OpSReset(r) \/ OpSDestroy(r)
-                         \/ \E e \in 1..2 : OpSAdd(r, e, FALSE) \/ OpSAdd(r, e, TRUE)
+                         \/ \E e \in EvKeys : OpSAdd(r, e, FALSE) \/ OpSAdd(r, e, TRUE)
                          \/ \E h \in 1..MaxNodes : OpSRemove(r, h)
                          \/ \E d \in 1..2 : OpSTarget(r, d) \/ OpSCreate(r, d)
                          \/ \E t \in Rs : OpSMoveConstruct(r, t) \/ OpSMoveAssign(r, t) \/ OpSSwap(r, t)
